@@ -130,6 +130,10 @@ class C04(Prop):
                 if sum(len(r["seq"]) for r in meta["recs"]) > 4000 and B < 7:
                     B = rng.choice([7, 64, 4096])
                 ops.append("open fmt=%s abc=%s B=%d" % (fmt if rng.random() < 0.8 else "unknown", abc, B))
+                if abc == "text" and rng.random() < 0.15 and (fmt == "fasta" or B == 4096):
+                    # (line-based formats with a first line longer than the read block lose the start of the recording: the first
+                    #  loadbuf at open overwrites <mem> before recording starts - latent with the default block size, see report)
+                    ops.append("guessabc")      # must leave the handle at the start of the file
                 mode = rng.choice(["read", "info", "seq", "mixed", "win", "win", "winrev", "rt" if fmt == "fasta" else "winrev", "block"])
                 if mode == "block":
                     total = sum(len(r["seq"]) for r in meta["recs"])
